@@ -494,7 +494,7 @@ Proof. vm_compute. reflexivity. Qed.
 Example text_hyp_needed : text_spec [13;10] (text_to_html [13;10] [(1, 1)]) = false.
 Proof. vm_compute. reflexivity. Qed.
 
-(* ------------------------------------------------------------- composition: text_to_html_inert *)
+(* ------------------------------------------------------------- composition: text_to_html_escaped_and_anchored *)
 
 (** For EVERY text and EVERY list of match intervals (matches non-empty, no CR/LF):
     (1) every less-than, greater-than, quote, apostrophe of the input is escaped, every ampersand of the escaped
@@ -504,8 +504,10 @@ Proof. vm_compute. reflexivity. Qed.
         nothing else is generated;
     (3) removing the tags gives back the escaped text (line ends normalised), and every tag is
         one of the three generated forms;
-    (4) every generated href is attribute-safe (no quote, apostrophe, less-than, greater-than). *)
-Theorem text_to_html_inert : forall (t : str) (ivs : list (N * N)),
+    (4) every generated href is attribute-safe (no quote, apostrophe, less-than, greater-than).
+    NOT claimed: anything about the SCHEME of a generated href — it is whatever the URL pattern
+    matched (see Proofs/SanitizeTextScheme.v: a javascript: text becomes a clickable anchor). *)
+Theorem text_to_html_escaped_and_anchored : forall (t : str) (ivs : list (N * N)),
   matches_plain (escape_std t) ivs = true ->
   let e := escape_std t in
   let segs := wrap_segs 0 e ivs in
